@@ -263,6 +263,31 @@ func nativeValidate(repo, hdir, wd string, eng *Engine, results []*HarnessResult
 			}
 		}
 		if msg := compareEvents(rf.vc.Events, nr); msg != "" {
+			// An assertion that fails in the real code on a solver-produced
+			// input is a violation with its witness in hand, whatever the
+			// encoding predicted (an abstraction - an uninterpreted calendar
+			// function, a stub - was too coarse on this path).
+			if nr.Outcome != "assume-failed" {
+				predFail := map[string]bool{}
+				for _, e := range rf.vc.Events {
+					if e.Kind == "fail" {
+						predFail[e.Label] = true
+					}
+				}
+				for _, e := range nr.Events {
+					if e.Kind != "fail" || predFail[e.Label] {
+						continue
+					}
+					f := Finding{Harness: rf.hr.Name, Kind: "assert", Label: e.Label, Site: rf.hr.Name, Pos: "native replay",
+						Vector: rf.vc.Vector, Tags: rf.vc.Tags, Confirmed: "yes", NativeOut: summarizeEvents(nr),
+						Detail: "fails in the real code on a solver-produced input; the encoding did not predict it (abstraction too coarse on this path)"}
+					k := findingKey(&f)
+					rf.hr.FindingCount[k]++
+					if rf.hr.FindingCount[k] == 1 {
+						rf.hr.Findings = append(rf.hr.Findings, f)
+					}
+				}
+			}
 			if len(rf.hr.Mismatches) < 10 {
 				rf.hr.Mismatches = append(rf.hr.Mismatches, fmt.Sprintf("vector %v: %s", rf.vc.Vector, msg))
 			}
